@@ -6,6 +6,7 @@ import (
 	"sort"
 
 	"github.com/skycoin/skycoin/src/cipher"
+	"github.com/skycoin/skycoin/src/visor"
 
 	"verifsim/model"
 	"verifsim/sim"
@@ -199,13 +200,9 @@ func (s *ledgerSim) checkBalances(n *node, addrs []model.Addr) {
 		}
 		g := bps[i]
 		if !has {
-			// An address without confirmed unspents: the node reports an empty pair.  Whether
-			// purely-incoming coins must show as predicted is not stated; compare confirmed only.
-			if g.Confirmed.Coins != 0 || g.Confirmed.Hours != 0 {
-				c.Violate("balance", "confirmed-nonzero-for-empty", "node %d reports confirmed balance %d/%d for an address with no unspents", n.id, g.Confirmed.Coins, g.Confirmed.Hours)
-				return
-			}
-			continue
+			// An address without confirmed unspents: confirmed is zero and predicted is whatever
+			// the pool sends to it ("predicted = confirmed - outgoing + incoming").
+			c.Count("probe.balance_of_address_without_unspents")
 		}
 		if bigU(g.Confirmed.Coins).Cmp(coins) != 0 || bigU(g.Confirmed.Hours).Cmp(hours) != 0 {
 			c.Violate("balance", "confirmed", "node %d confirmed balance of %x = %d coins / %d hours, chain says %s / %s", n.id, a[1:5], g.Confirmed.Coins, g.Confirmed.Hours, coins, hours)
@@ -323,7 +320,65 @@ func (s *ledgerSim) checkHistory(n *node, addrs []model.Addr) {
 	}
 	if num != uint64(len(m.TxnSeq)) {
 		c.Violate("txn-count", fmt.Sprintf("got%sexp", cmpSign(bigU(num), bigU(uint64(len(m.TxnSeq))))), "node %d counts %d confirmed transactions, chain has %d", n.id, num, len(m.TxnSeq))
+		return
 	}
+	// the confirmed transaction history of the addresses: every transaction of the chain that
+	// spends an output owned by one of them or pays one of them
+	want := map[model.Hash]uint64{}
+	inSet := map[model.Addr]bool{}
+	for _, a := range addrs {
+		inSet[a] = true
+	}
+	for bi := range m.Chain {
+		for ti := range m.Chain[bi].Txns {
+			tx := &m.Chain[bi].Txns[ti]
+			hit := false
+			for _, o := range tx.Out {
+				if inSet[o.Addr] {
+					hit = true
+				}
+			}
+			for _, in := range tx.In {
+				if inSet[m.Created[in].Addr] {
+					hit = true
+				}
+			}
+			if hit {
+				want[tx.Hash()] = m.Chain[bi].Head.BkSeq
+			}
+		}
+	}
+	txs, _, err := n.v.GetTransactions([]visor.TxFilter{visor.NewAddrsFilter(cAddrs(addrs)), visor.NewConfirmedTxFilter(true)}, visor.AscOrder, nil)
+	if err != nil {
+		sim.Harnessf("GetTransactions: %v", err)
+	}
+	if len(txs) != len(want) {
+		c.Violate("address-txn-history", fmt.Sprintf("count got%sexp", cmpSign(big.NewInt(int64(len(txs))), big.NewInt(int64(len(want))))), "node %d lists %d confirmed transactions for %d addresses, the chain has %d that touch them", n.id, len(txs), len(addrs), len(want))
+		return
+	}
+	lastSeq := uint64(0)
+	for i := range txs {
+		mt := mTxn(&txs[i].Transaction)
+		seq, ok := want[mt.Hash()]
+		if !ok || !txs[i].Status.Confirmed || txs[i].Status.BlockSeq != seq {
+			c.Violate("address-txn-history", "entry", "node %d lists transaction %s (seq %d) in the address history, the chain says member=%v seq=%d", n.id, short(mt.Hash()), txs[i].Status.BlockSeq, ok, seq)
+			return
+		}
+		if seq < lastSeq {
+			c.Violate("address-txn-history", "order", "node %d address history is not in ascending block order", n.id)
+			return
+		}
+		lastSeq = seq
+	}
+	all, _, err := n.v.GetTransactions([]visor.TxFilter{visor.NewConfirmedTxFilter(true)}, visor.AscOrder, nil)
+	if err != nil {
+		sim.Harnessf("GetTransactions(all): %v", err)
+	}
+	if len(all) != len(m.TxnSeq) {
+		c.Violate("address-txn-history", "all-confirmed-count", "node %d lists %d confirmed transactions, the chain has %d", n.id, len(all), len(m.TxnSeq))
+		return
+	}
+	c.Count("probe.address_txn_history_compared")
 }
 
 func (s *ledgerSim) checkBlockQueries(n *node) {
